@@ -579,6 +579,8 @@ def run(chk):
     rule_sizeof(chk)
     rule_template_defaults(chk)
     rule_builtin_constants(chk)
+    import c05
+    c05.rule_thread_group_values(chk, prefix="C13.numthreads")      # attribute arguments: the folded value is used as it is, or refused
 
 
 # HLSL's values of the built-in constants rssl pre-defines (DirectX Raytracing functional spec: RAY_FLAG, COMMITTED_STATUS,
